@@ -300,6 +300,59 @@ def _iter_sources(body, e):
 
 # ------------------------------------------------------------------ C02.ack
 
+def check_partition(ctx):
+    """flush() is acknowledged when every *worker* has answered; that covers every *shard* only if the workers' shard sets
+    partition 0..shards: worker w drains shards w, w + W, w + 2W, ... below sharded_buffers.len(), W is the number of workers that
+    were started, every residue 0..W has a worker, and force_flush addresses exactly those W channels. A shard outside every
+    worker's set is never written, yet flush() returns Ok."""
+    inst = "C02.ack/partition"
+    b = ctx.fn("write_buffer::flush_worker_shards", inst)
+    if b is not None:
+        sb = ctx.sites(b, R.call("Iterator::step_by"), inst, exact=1)
+        for x in sb:
+            rg = R.arg_expr(b, b.nodes[x], 0)
+            st = R.arg_expr(b, b.nodes[x], 1)
+            ok = rg.k == "agg" and str(rg.extra).endswith("Range") and len(rg.a) == 2 and \
+                rg.a[0].k == "field" and rg.a[0].extra[1] == "worker_id" and not any(y.k == "bin" for y in rg.a[0].walk()) and \
+                rg.a[1].has_call("Vec::len") and rg.a[1].has_field("WorkerContext", "sharded_buffers") and not any(y.k == "bin" for y in rg.a[1].walk())
+            ctx.check(ok, inst, "PIN", b.path, "a worker's shards are worker_id .. sharded_buffers.len()", b.where(x), {"range": rg.show()[:120]})
+            ctx.check(st.k == "field" and st.extra[1] == "worker_count", inst, "PIN", b.path, "... stepped by worker_count", b.where(x), {"step": st.show()[:60]})
+        # the shard drained is the one the iteration yields
+        dr = ctx.sites(b, R.call("ShardedWriteBuffer::drain_entries"), inst, exact=1)
+        for d in dr:
+            e = R.recv_expr(b, b.nodes[d])
+            ok = e.has_field("WorkerContext", "sharded_buffers") and e.has_call("Iterator::next") and not any(y.k == "bin" for y in e.walk())
+            ctx.check(ok, inst, "PROVENANCE", b.path, "the shard drained is sharded_buffers[shard_id] of that iteration (no offset)", b.where(d), {"recv": e.show()[:120]})
+    b = ctx.fn("WriteBuffer::start_workers", inst)
+    if b is not None:
+        cl = [n.id for n in b.calls() if R.call_matches(n.ev, "Ord::clamp")]
+        ctx.check(len(cl) == 1, inst, "anchor", b.path, "the worker count is clamped once (found %d)" % len(cl), None)
+        for c in cl:
+            lo, hi = R.arg_expr(b, b.nodes[c], 1), R.arg_expr(b, b.nodes[c], 2)
+            ctx.check(lo.k == "const" and (lo.extra or {}).get("val") == 1 and hi.has_call("Vec::len") and hi.has_field("WriteBuffer", "sharded_buffers"), inst, "PIN", b.path,
+                      "at least one worker, at most one per shard (clamp(1, shards))", b.where(c))
+        lits = [n for n in b.nodes if n.kind == "assign" and n.ev.get("rv") == "agg" and (n.ev.get("adt") or "").endswith("WorkerContext")]
+        ctx.check(len(lits) == 1, inst, "anchor", b.path, "one WorkerContext literal (found %d)" % len(lits), None)
+        tr = A.tracer(b)
+        for n in lits:
+            f = dict(zip(n.ev["fields"], [tr.operand(o) for o in n.ev["ops"]]))
+            wc, wi, sh = f.get("worker_count"), f.get("worker_id"), f.get("sharded_buffers")
+            ctx.check(wc is not None and any(c.nid in cl for c in wc.calls()) and not any(y.k == "bin" for y in wc.walk()), inst, "PROVENANCE", b.path,
+                      "worker_count is the clamped number of workers actually started", b.where(n.id), {"expr": wc.show()[:80] if wc is not None else None})
+            ctx.check(wi is not None and wi.has_call("Iterator::next") and not any(y.k == "bin" for y in wi.walk()), inst, "PROVENANCE", b.path,
+                      "worker_id is the index of the enumeration over the receivers (every residue 0..W gets a worker)", b.where(n.id), {"expr": wi.show()[:80] if wi is not None else None})
+            ctx.check(sh is not None and sh.has_field("WriteBuffer", "sharded_buffers"), inst, "PROVENANCE", b.path, "workers see the store's shard vector", b.where(n.id))
+        # one channel and one receiver per started worker: both pushed in the loop over 0..actual_workers
+        from rules.common import whole_collection_loop
+        pushes = [n for n in b.calls() if R.call_matches(n.ev, "Vec::push") and R.arg_expr(b, n, 0).has_field("WriteBuffer", "worker_channels")]
+        ctx.check(len(pushes) == 1, inst, "anchor", b.path, "one push onto worker_channels (found %d)" % len(pushes), None)
+        for pn in pushes:
+            # the loop bound: Range{0, actual_workers}
+            rgs = [tr.node_value(n.id) for n in b.nodes if n.kind == "assign" and n.ev.get("rv") == "agg" and str(n.ev.get("adt") or "").endswith("ops::Range")]
+            ok = any(len(r.a) == 2 and r.a[0].k == "const" and (r.a[0].extra or {}).get("val") == 0 and any(c.nid in cl for c in r.a[1].calls()) and not any(y.k == "bin" for y in r.a[1].walk()) for r in rgs)
+            ctx.check(ok, inst, "PIN", b.path, "channels are created for 0..actual_workers", b.where(pn.id))
+
+
 def check_ack(ctx):
     inst = "C02.ack/flush_all"
     body = ctx.fn("FeoxStore::flush_all", inst)
@@ -848,6 +901,7 @@ def check_recovery_release_len(ctx):
 
 
 def check(ctx):
+    check_partition(ctx)
     check_recovery_release_len(ctx)
     check_worker(ctx)
     check_sync(ctx)
